@@ -179,6 +179,8 @@ class C06Yields(Monitor):
                 )
             if db < hi_b - tol and hi_b > 0:
                 ctx.hit("wpy_reduced_gain_day")
+            if et0 < 0.1 and tr > 0:
+                ctx.hit("et0_below_floor_day")
             hiadj = float(g[GX["harvest_index_adj"]])
             hi = float(g[GX["harvest_index"]])
             bns = float(g[GX["biomass_ns"]])
